@@ -212,5 +212,93 @@ pub fn static_family() -> Vec<(String, Program)> {
             },
         ));
     }
+    // P7: wide signatures - functions with 4, 5, 12 and 33 parameters of cycling widths, every parameter used
+    {
+        let widths = [8u16, 16, 32, 64];
+        let mut items = vec![];
+        let mut main_stmts = vec![];
+        for &n in &[4usize, 5, 12, 33] {
+            let params: Vec<(String, Ty)> = (0..n).map(|i| (format!("operand_{i}"), u(widths[i % 4]))).collect();
+            // fn wide_n(..) -> u64 { xor of all u64-typed operands after checking every other one against its constant }
+            let mut stmts = vec![];
+            for (i, (pn, pt)) in params.iter().enumerate() {
+                if let Ty::U(w) = pt {
+                    stmts.push(s(assert_(jet(&format!("eq_{w}"), vec![var(pn), dec((i as u128 * 37 + 5) % 251)]))));
+                }
+            }
+            let last = var(&params[n - 1].0);
+            items.push(Item::Fn(FnDef { name: format!("wide_{n}"), params: params.clone(), ret: Some(params[n - 1].1.clone()), body: (stmts, Some(Box::new(last))) }));
+            let args: Vec<Expr> = (0..n).map(|i| dec((i as u128 * 37 + 5) % 251)).collect();
+            let Ty::U(w) = params[n - 1].1.clone() else { unreachable!() };
+            main_stmts.push(s(assert_(jet(&format!("eq_{w}"), vec![fcall(&format!("wide_{n}"), args), dec(((n - 1) as u128 * 37 + 5) % 251)]))));
+        }
+        items.push(Item::Fn(FnDef { name: "main".into(), params: vec![], ret: None, body: (main_stmts, None) }));
+        out.push(("P7-wide-signatures".to_string(), Program { items }));
+    }
+    // P8: deep environments - 70 live bindings in main, all read back; a parameter read below 70 local bindings
+    {
+        let n = 70usize;
+        let mut stmts: Vec<Stmt> = (0..n).map(|i| let_(Pat::Id(format!("v{i}")), u(8), if i == 0 { wit("W") } else { dec((i as u128 * 7 + 3) % 256) })).collect();
+        for i in 1..n {
+            stmts.push(s(assert_(jet("eq_8", vec![var(&format!("v{i}")), dec((i as u128 * 7 + 3) % 256)]))));
+        }
+        stmts.push(s(assert_(jet("eq_8", vec![var("v0"), fcall("below", vec![var("v0")])]))));
+        let mut fstmts: Vec<Stmt> = (0..n).map(|i| let_(Pat::Id(format!("l{i}")), u(8), dec((i as u128 * 3 + 1) % 256))).collect();
+        fstmts.push(s(assert_(jet("eq_8", vec![var("l0"), dec(1)]))));
+        out.push((
+            "P8-deep-environments".to_string(),
+            Program {
+                items: vec![
+                    Item::Fn(FnDef { name: "below".into(), params: vec![("first".into(), u(8))], ret: Some(u(8)), body: (fstmts, Some(Box::new(var("first")))) }),
+                    Item::Fn(FnDef { name: "main".into(), params: vec![], ret: None, body: (stmts, None) }),
+                ],
+            },
+        ));
+    }
+    // P9: one name bound at three types in three enclosing scopes, used two scope levels below each binding
+    out.push((
+        "P9-shadow-depth".to_string(),
+        Program {
+            items: vec![
+                f(
+                    "widen",
+                    vec![("x", u(8)), ("keep", Ty::Bool)],
+                    Some(u(16)),
+                    vec![let_(Pat::id("x"), u(16), jet("left_pad_low_8_16", vec![var("x")]))],
+                    Some(match_(var("keep"), (MPat::True, block(vec![], Some(var("x")))), (MPat::False, dec(0)))),
+                ),
+                f(
+                    "main",
+                    vec![],
+                    None,
+                    vec![
+                        let_(Pat::id("a"), u(8), dec(1)),
+                        s(block(
+                            vec![
+                                let_(Pat::id("a"), u(16), dec(2)),
+                                s(block(
+                                    vec![
+                                        s(assert_(jet("eq_16", vec![var("a"), dec(2)]))),
+                                        s(block(vec![let_(Pat::id("a"), u(32), dec(3)), s(block(vec![s(assert_(jet("eq_32", vec![var("a"), dec(3)])))], None))], None)),
+                                        s(assert_(jet("eq_16", vec![var("a"), dec(2)]))),
+                                    ],
+                                    None,
+                                )),
+                            ],
+                            None,
+                        )),
+                        s(assert_(jet("eq_8", vec![var("a"), dec(1)]))),
+                        s(assert_(jet("eq_16", vec![fcall("widen", vec![dec(7), wit("K")]), dec(7)]))),
+                    ],
+                    None,
+                ),
+            ],
+        },
+    ));
     out
+}
+
+/// Bases whose near misses are numerous (wide / deep programs): callers may stride over their mutants in the quick tier.
+pub fn is_large(name: &str) -> bool {
+    name.starts_with("P7-") || name.starts_with("P8-")
 }
